@@ -175,6 +175,11 @@ func (c *Cache) Watch(
 		if err != nil {
 			// Forget the reference again, so the next Watch call retries to start the informer.
 			delete(c.informerReferences, gvk)
+			// The informer may already be running, e.g. when its initial sync took longer than ctx allows.
+			// Nobody references it, so it has to be stopped or it would keep running without any owner.
+			if derr := c.informerMap.Delete(ctx, gvk); derr != nil {
+				return fmt.Errorf("getting informer from InformerMap: %w (releasing informer: %v)", err, derr) //nolint:errorlint
+			}
 			return fmt.Errorf("getting informer from InformerMap: %w", err)
 		}
 
